@@ -1,4 +1,5 @@
 (* ExtProofs.v — lemmas and proofs about Ext.v (no model definitions). *)
+From Coq Require Import FinFun.
 From AG Require Import Ext.
 Open Scope N_scope.
 
@@ -93,3 +94,723 @@ Section ExecuteProofs.
     cbn [map run_execute]. unfold data_hook at 1. rewrite IH. reflexivity.
   Qed.
 End ExecuteProofs.
+
+Lemma bindo_ok {A B} (x : outcome A) (f : A -> outcome B) r :
+  bindo x f = Ok r -> exists a, x = Ok a /\ f a = Ok r.
+Proof. destruct x; cbn; intros H; try discriminate. eauto. Qed.
+
+Lemma hooked_eq ch h (r : xr ires) :
+  hooked ch h r = mkxr (x_v r) (x_es r) (x_tr r) (wrap ch h (ires_ok (x_v r)) (x_ev r)) (x_lf r) (x_ni r).
+Proof.
+  unfold hooked, next_resolve, resolve_chain. rewrite run_rec_chain. cbn [fst snd]. reflexivity.
+Qed.
+
+
+Definition sim {V} (r r0 : xr V) : Prop :=
+  x_v r0 = x_v r /\ x_es r0 = x_es r /\ x_tr r0 = x_tr r /\ x_lf r0 = false.
+
+Section Transparent.
+  Variable q : quirks.
+  Variable S : schema.
+  Variable w : world.
+  Variable frags : list (name * fragment).
+  Variable vars : list (name * value).
+  Variable vdefs : list vardef.
+  Variable ch : list N.
+
+  Definition R_set (f f0 : set_t) : Prop :=
+    forall st rt nid sels p r, f st rt nid sels p = Ok r -> x_lf r = false ->
+      exists r0, f0 st rt nid sels p = Ok r0 /\ sim r r0.
+  Definition R_occs (f f0 : occs_t) : Prop :=
+    forall rt nid occs p r, f rt nid occs p = Ok r -> x_lf r = false ->
+      exists r0, f0 rt nid occs p = Ok r0 /\ sim r r0.
+  Definition R_field (f f0 : field_t) : Prop :=
+    forall rt nid o p r, f rt nid o p = Ok r -> x_lf r = false ->
+      exists r0, f0 rt nid o p = Ok r0 /\ sim r r0.
+  Definition R_comp (f f0 : comp_t) : Prop :=
+    forall c fa t ov sub p r, f c fa t ov sub p = Ok r -> x_lf r = false ->
+      exists r0, f0 c fa t ov sub p = Ok r0 /\ sim r r0.
+  Definition R_items (f f0 : items_t) : Prop :=
+    forall fa t l i sub p r, f fa t l i sub p = Ok r -> x_lf r = false ->
+      exists r0, f0 fa t l i sub p = Ok r0 /\ sim r r0.
+
+  Lemma set_step_rel n' f f0 : R_occs f f0 ->
+    R_set (set_step q S frags vars vdefs n' f) (set_step q S frags vars vdefs n' f0).
+  Proof.
+    intros Hf st rt nid sels p r H Hlf. unfold set_step in *.
+    apply bindo_ok in H. destruct H as [occs0 [Hc H]]. rewrite Hc. cbn [bindo].
+    apply bindo_ok in H. destruct H as [a [Ha H]]. inversion H; subst r; clear H. cbn [x_lf] in Hlf.
+    destruct (Hf _ _ _ _ _ Ha Hlf) as [a0 [Ha0 [Hv [He [Ht Hl]]]]]. rewrite Ha0. cbn [bindo].
+    eexists. split; [reflexivity|]. unfold sim; cbn. rewrite Hv. auto.
+  Qed.
+
+  Lemma occs_step_rel ff ff0 fo fo0 : R_field ff ff0 -> R_occs fo fo0 ->
+    forall rt nid o r p res, occs_step ff fo rt nid o r p = Ok res -> x_lf res = false ->
+      exists res0, occs_step ff0 fo0 rt nid o r p = Ok res0 /\ sim res res0.
+  Proof.
+    intros Hf Ho rt nid o r p res H Hlf. unfold occs_step in *.
+    apply bindo_ok in H. destruct H as [a [Ha H]].
+    destruct (x_v a) eqn:Eva.
+    - apply bindo_ok in H. destruct H as [b [Hb H]]. inversion H; subst res; clear H. cbn [x_lf] in Hlf.
+      apply orb_false_elim in Hlf. destruct Hlf as [Hla Hlb].
+      destruct (Hf _ _ _ _ _ Ha Hla) as [a0 [Ha0 [Hv [He [Ht Hl]]]]].
+      destruct (Ho _ _ _ _ _ Hb Hlb) as [b0 [Hb0 [Hv' [He' [Ht' Hl']]]]].
+      rewrite Ha0. cbn [bindo]. rewrite Hv, Eva. rewrite Hb0. cbn [bindo].
+      eexists. split; [reflexivity|]. unfold sim; cbn. rewrite Hv', He, He', Ht, Ht', Hl, Hl'. auto.
+    - inversion H; subst res; clear H. cbn [x_lf] in Hlf.
+      destruct (Hf _ _ _ _ _ Ha Hlf) as [a0 [Ha0 [Hv [He [Ht Hl]]]]].
+      rewrite Ha0. cbn [bindo]. rewrite Hv, Eva.
+      eexists. split; [reflexivity|]. unfold sim; cbn. auto.
+  Qed.
+
+  Lemma field_body_rel c c0 : R_comp c c0 ->
+    forall nid o p' t r, field_body q S w c nid o p' t = Ok r -> x_lf r = false ->
+      exists r0, field_body q S w c0 nid o p' t = Ok r0 /\ sim r r0.
+  Proof.
+    intros Hc nid o p' t r H Hlf. unfold field_body in *.
+    destruct (resolver_fails S w t (out w nid (o_name (xo o)))).
+    - destruct (q_field_err_parent q || is_nonnull t); inversion H; subst r;
+        (eexists; split; [reflexivity|]; unfold sim; cbn; auto).
+    - apply bindo_ok in H. destruct H as [a [Ha H]]. inversion H; subst r; clear H. cbn [x_lf] in Hlf.
+      destruct (Hc _ _ _ _ _ _ _ Ha Hlf) as [a0 [Ha0 [Hv [He [Ht Hl]]]]]. rewrite Ha0. cbn [bindo].
+      eexists. split; [reflexivity|]. unfold sim; cbn. rewrite Ht. auto.
+  Qed.
+
+  Lemma field_step_rel c c0 : R_comp c c0 ->
+    R_field (field_step q S w ch c) (field_step q S w [] c0).
+  Proof.
+    intros Hc rt nid o p r H Hlf. unfold field_step in *.
+    destruct (name_eqb (o_name (xo o)) N_typename).
+    { inversion H; subst r. eexists. split; [reflexivity|]. unfold sim; cbn; auto. }
+    destruct (obj_field_ty S rt (o_name (xo o))) as [t|]; [|discriminate].
+    assert (Hbody : forall r', field_body q S w c nid o (p ++ [PF (o_key (xo o))]) t = Ok r' -> x_lf r' = false ->
+              exists r0, (if ext_branch [] o then
+                            match lookup_ret S (xo_st o) (o_name (xo o)) with
+                            | None => Ok (mkxr (IFail []) [] [] [] true O)
+                            | Some rty => bindo (field_body q S w c0 nid o (p ++ [PF (o_key (xo o))]) t)
+                                                (fun r => Ok (hooked [] (HField (p ++ [PF (o_key (xo o))]) (xo_st o) rty (o_name (xo o)) (xo_alias o)) r))
+                            end
+                          else field_body q S w c0 nid o (p ++ [PF (o_key (xo o))]) t) = Ok r0 /\ sim r' r0
+              \/ (ext_branch [] o = true /\ lookup_ret S (xo_st o) (o_name (xo o)) = None)).
+    { intros r' Hb Hl'. destruct (field_body_rel c c0 Hc _ _ _ _ _ Hb Hl') as [r0 [Hb0 Hs]].
+      destruct (ext_branch [] o) eqn:Eb.
+      - destruct (lookup_ret S (xo_st o) (o_name (xo o))) as [rty|] eqn:El.
+        + rewrite Hb0. cbn [bindo]. eexists. left. split; [reflexivity|].
+          rewrite hooked_eq. rewrite wrap_nil. destruct Hs as [Hv [He [Ht Hl]]]. unfold sim; cbn. auto.
+        + exists r0. right. auto.
+      - exists r0. left. auto. }
+    destruct (ext_branch ch o) eqn:Ebc.
+    - destruct (lookup_ret S (xo_st o) (o_name (xo o))) as [rty|] eqn:El.
+      + apply bindo_ok in H. destruct H as [a [Ha H]]. inversion H; subst r; clear H.
+        rewrite hooked_eq in Hlf. cbn [x_lf] in Hlf.
+        destruct (Hbody a Ha Hlf) as [r0 [[H0 Hs]|[_ Hn]]]; [|discriminate].
+        exists r0. split; [exact H0|]. rewrite hooked_eq. destruct Hs as [Hv [He [Ht Hl]]]. unfold sim; cbn. auto.
+      + inversion H; subst r. cbn in Hlf. discriminate.
+    - (* no extension attached and no directive: the fast path on both sides *)
+      assert (Hch : ch = []).
+      { unfold ext_branch in Ebc. apply orb_false_elim in Ebc. destruct Ebc as [E1 _].
+        destruct ch; [reflexivity|discriminate]. }
+      assert (Eb0 : ext_branch [] o = false) by (rewrite <- Hch; exact Ebc).
+      destruct (Hbody r H Hlf) as [r0 [[H0 Hs]|[Ht _]]]; [|congruence].
+      exists r0. split; [exact H0|exact Hs].
+  Qed.
+
+  Lemma xcatch_sim catch (r r0 : xr ires) : sim r r0 -> sim (xcatch catch r) (xcatch catch r0).
+  Proof.
+    intros [Hv [He [Ht Hl]]]. unfold xcatch. rewrite Hv.
+    destruct (x_v r) eqn:E; [unfold sim; rewrite E; auto|].
+    destruct catch; unfold sim; cbn; rewrite ?He, ?E; auto.
+  Qed.
+  Lemma xcatch_lf catch (r : xr ires) : x_lf (xcatch catch r) = x_lf r.
+  Proof. unfold xcatch. destruct (x_v r); [reflexivity|]. destruct catch; reflexivity. Qed.
+
+  Lemma comp_step_rel c c0 i i0 s s0 : R_comp c c0 -> R_items i i0 -> R_set s s0 ->
+    R_comp (comp_step q S w c i s) (comp_step q S w c0 i0 s0).
+  Proof.
+    intros Hc Hi Hs catch fa t ov sub p r H Hlf. unfold comp_step in *.
+    assert (Leaf : forall v : ires, Ok (mkxr v [] [] [] false O) = Ok r ->
+              exists r0, Ok (mkxr v [] [] [] false O) = Ok r0 /\ sim r r0).
+    { intros v Hv. injection Hv as <-. eexists. split; [reflexivity|]. unfold sim; cbn [x_v x_es x_tr x_lf]. auto. }
+    destruct t as [tn|t'|t'].
+    - destruct ov as [| |z|b|s1|b|e|k|l]; try (apply Leaf; exact H).
+      destruct (node_ty w k) as [rt'|]; [|apply Leaf; exact H].
+      apply bindo_ok in H. destruct H as [a [Ha H]]. injection H as <-.
+      rewrite xcatch_lf in Hlf.
+      destruct (Hs _ _ _ _ _ _ Ha Hlf) as [a0 [Ha0 Hsim]]. rewrite Ha0. cbn [bindo].
+      eexists. split; [reflexivity|]. apply xcatch_sim; exact Hsim.
+    - destruct ov as [| |z|b|s1|b|e|k|l]; try (apply Leaf; exact H).
+      apply bindo_ok in H. destruct H as [a [Ha H]]. injection H as <-.
+      rewrite xcatch_lf in Hlf. cbn [x_lf] in Hlf.
+      destruct (Hi _ _ _ _ _ _ _ Ha Hlf) as [a0 [Ha0 [Hv [He [Ht Hl]]]]]. rewrite Ha0. cbn [bindo].
+      eexists. split; [reflexivity|]. apply xcatch_sim. unfold sim; cbn [x_v x_es x_tr x_lf]. rewrite Hv. auto.
+    - apply (Hc _ _ _ _ _ _ _ H Hlf).
+  Qed.
+
+  Lemma item_hooked_sim fa t p i (a a0 : xr ires) : sim a a0 ->
+    x_v (item_hooked [] fa t p i a0) = x_v (item_hooked ch fa t p i a) /\
+    x_es (item_hooked [] fa t p i a0) = x_es (item_hooked ch fa t p i a) /\
+    x_tr (item_hooked [] fa t p i a0) = x_tr (item_hooked ch fa t p i a) /\
+    x_lf (item_hooked [] fa t p i a0) = false /\
+    x_lf (item_hooked ch fa t p i a) = x_lf a.
+  Proof.
+    intros [Hv [He [Ht Hl]]]. unfold item_hooked. cbn [is_nil].
+    destruct (is_nil ch); [auto|]. rewrite hooked_eq. cbn. auto.
+  Qed.
+
+  Lemma items_step_rel c c0 i i0 : R_comp c c0 -> R_items i i0 ->
+    forall fa t ov r k sub p res, items_step q ch c i fa t ov r k sub p = Ok res -> x_lf res = false ->
+      exists res0, items_step q [] c0 i0 fa t ov r k sub p = Ok res0 /\ sim res res0.
+  Proof.
+    intros Hc Hi fa t ov r k sub p res H Hlf. unfold items_step in *.
+    apply bindo_ok in H. destruct H as [a [Ha H]]. cbv zeta in H.
+    assert (Hla : x_lf a = false).
+    { destruct (x_v (item_hooked ch fa t p k a)) eqn:E.
+      - apply bindo_ok in H. destruct H as [b [Hb H]]. inversion H; subst res. cbn [x_lf] in Hlf.
+        apply orb_false_elim in Hlf. destruct Hlf as [Hl1 _].
+        unfold item_hooked in Hl1. destruct (is_nil ch); [exact Hl1|]. rewrite hooked_eq in Hl1. exact Hl1.
+      - inversion H; subst res. cbn [x_lf] in Hlf.
+        unfold item_hooked in Hlf. destruct (is_nil ch); [exact Hlf|]. rewrite hooked_eq in Hlf. exact Hlf. }
+    destruct (Hc _ _ _ _ _ _ _ Ha Hla) as [a0 [Ha0 Hsim]]. rewrite Ha0. cbn [bindo]. cbv zeta.
+    destruct (item_hooked_sim fa t p k a a0 Hsim) as [Hv [He [Ht [Hl0 Hl1]]]].
+    rewrite Hv.
+    destruct (x_v (item_hooked ch fa t p k a)) eqn:E.
+    - apply bindo_ok in H. destruct H as [b [Hb H]]. inversion H; subst res; clear H. cbn [x_lf] in Hlf.
+      apply orb_false_elim in Hlf. destruct Hlf as [_ Hlb].
+      destruct (Hi _ _ _ _ _ _ _ Hb Hlb) as [b0 [Hb0 [Hv' [He' [Ht' Hl']]]]]. rewrite Hb0. cbn [bindo].
+      eexists. split; [reflexivity|]. unfold sim; cbn [x_v x_es x_tr x_lf]. rewrite Hv', He, He', Ht, Ht', Hl0, Hl'. auto.
+    - inversion H; subst res; clear H.
+      eexists. split; [reflexivity|]. unfold sim; cbn [x_v x_es x_tr x_lf]. rewrite He, Ht, Hl0. auto.
+  Qed.
+
+  Theorem transparent_all : forall n,
+      R_set (x_set q S w frags vars vdefs ch n) (x_set q S w frags vars vdefs [] n) /\
+      R_occs (x_occs q S w frags vars vdefs ch n) (x_occs q S w frags vars vdefs [] n) /\
+      R_field (x_field q S w frags vars vdefs ch n) (x_field q S w frags vars vdefs [] n) /\
+      R_comp (x_comp q S w frags vars vdefs ch n) (x_comp q S w frags vars vdefs [] n) /\
+      R_items (x_items q S w frags vars vdefs ch n) (x_items q S w frags vars vdefs [] n).
+  Proof.
+    induction n as [|n [IHs [IHo [IHf [IHc IHi]]]]].
+    - repeat split.
+      + intros st rt nid sels p r H; discriminate.
+      + intros rt nid occs p r H Hlf. destruct occs; [|discriminate].
+        cbn in H |- *. inversion H; subst r. eexists; split; [reflexivity|]. unfold sim; cbn; auto.
+      + intros rt nid o p r H; discriminate.
+      + intros c fa t ov sub p r H; discriminate.
+      + intros fa t l i sub p r H Hlf. destruct l; [|discriminate].
+        cbn in H |- *. inversion H; subst r. eexists; split; [reflexivity|]. unfold sim; cbn; auto.
+    - repeat split.
+      + change (R_set (set_step q S frags vars vdefs n (x_occs q S w frags vars vdefs ch n))
+                      (set_step q S frags vars vdefs n (x_occs q S w frags vars vdefs [] n))).
+        apply set_step_rel; exact IHo.
+      + intros rt nid occs p r H Hlf. destruct occs as [|o occs].
+        * cbn in H |- *. inversion H; subst r. eexists; split; [reflexivity|]. unfold sim; cbn; auto.
+        * change (occs_step (x_field q S w frags vars vdefs ch n) (x_occs q S w frags vars vdefs ch n) rt nid o occs p = Ok r) in H.
+          change (exists r0, occs_step (x_field q S w frags vars vdefs [] n) (x_occs q S w frags vars vdefs [] n) rt nid o occs p = Ok r0 /\ sim r r0).
+          eapply occs_step_rel; eauto.
+      + change (R_field (field_step q S w ch (x_comp q S w frags vars vdefs ch n))
+                        (field_step q S w [] (x_comp q S w frags vars vdefs [] n))).
+        apply field_step_rel; exact IHc.
+      + change (R_comp (comp_step q S w (x_comp q S w frags vars vdefs ch n) (x_items q S w frags vars vdefs ch n) (x_set q S w frags vars vdefs ch n))
+                       (comp_step q S w (x_comp q S w frags vars vdefs [] n) (x_items q S w frags vars vdefs [] n) (x_set q S w frags vars vdefs [] n))).
+        apply comp_step_rel; assumption.
+      + intros fa t l i sub p r H Hlf. destruct l as [|ov l].
+        * cbn in H |- *. inversion H; subst r. eexists; split; [reflexivity|]. unfold sim; cbn; auto.
+        * change (items_step q ch (x_comp q S w frags vars vdefs ch n) (x_items q S w frags vars vdefs ch n) fa t ov l i sub p = Ok r) in H.
+          change (exists r0, items_step q [] (x_comp q S w frags vars vdefs [] n) (x_items q S w frags vars vdefs [] n) fa t ov l i sub p = Ok r0 /\ sim r r0).
+          eapply items_step_rel; eauto.
+  Qed.
+End Transparent.
+
+
+(* ---------------------------------------------- shape of the resolve events --- *)
+Inductive nested (ch : list N) : list ev -> Prop :=
+| nested_nil : nested ch []
+| nested_cons : forall h ok inner rest,
+    is_resolve h = true -> nested ch inner -> nested ch rest ->
+    nested ch (wrap ch h ok inner ++ rest).
+
+Lemma nested_app ch a b : nested ch a -> nested ch b -> nested ch (a ++ b).
+Proof.
+  intros Ha Hb. induction Ha as [|h ok inner rest Hr Hi IHi Hrest IHrest]; [exact Hb|].
+  rewrite <- app_assoc. apply nested_cons; auto.
+Qed.
+
+Lemma nested_wrap ch h ok inner : is_resolve h = true -> nested ch inner -> nested ch (wrap ch h ok inner).
+Proof.
+  intros Hr Hi. rewrite <- (app_nil_r (wrap ch h ok inner)). apply nested_cons; auto. constructor.
+Qed.
+
+Definition cnt (e : N) (f : hk -> bool) (evs : list ev) : nat :=
+  length (filter (fun x => match x with Enter e' h => (e' =? e) && f h | Exit _ _ _ => false end) evs).
+
+Lemma cnt_app e f a b : cnt e f (a ++ b) = (cnt e f a + cnt e f b)%nat.
+Proof. unfold cnt. rewrite filter_app, app_length. reflexivity. Qed.
+
+Lemma cnt_enters e f h ch :
+  cnt e f (map (fun x => Enter x h) ch) = if f h then count_occ N.eq_dec ch e else O.
+Proof.
+  induction ch as [|x ch IH]; [destruct (f h); reflexivity|].
+  unfold cnt in *. cbn [map filter count_occ].
+  destruct (N.eqb_spec x e) as [->|Hne]; cbn [andb].
+  - destruct (f h) eqn:Ef; cbn [length].
+    + rewrite IH. destruct (N.eq_dec e e); [reflexivity|congruence].
+    + exact IH.
+  - rewrite IH. destruct (f h); [|reflexivity]. destruct (N.eq_dec x e); [congruence|reflexivity].
+Qed.
+
+Lemma cnt_exits e f h ok l : cnt e f (map (fun x => Exit x h ok) l) = O.
+Proof. induction l as [|x l IH]; [reflexivity|]. unfold cnt in *. cbn. exact IH. Qed.
+
+Lemma cnt_wrap e f ch h ok inner :
+  cnt e f (wrap ch h ok inner) = ((if f h then count_occ N.eq_dec ch e else O) + cnt e f inner)%nat.
+Proof. unfold wrap. rewrite !cnt_app, cnt_enters, cnt_exits. lia. Qed.
+
+(* invariant of every piece of execution: events well nested in chain order;
+   every extension sees one field hook per resolver invocation and one item
+   hook per list item handed to resolve_list's hooked branch *)
+Definition inv {V} (ch : list N) (r : xr V) : Prop :=
+  nested ch (x_ev r) /\
+  (forall e, cnt e is_field (x_ev r) = (count_occ N.eq_dec ch e * length (x_tr r))%nat) /\
+  (forall e, cnt e is_item (x_ev r) = (count_occ N.eq_dec ch e * x_ni r)%nat).
+
+Lemma inv_empty {V} ch (v : V) es lf : inv ch (mkxr v es [] [] lf O).
+Proof.
+  unfold inv; cbn. split; [constructor|]. split; intros e; unfold cnt; cbn; lia.
+Qed.
+
+Lemma inv_join {V W} ch (a : xr V) (b : xr W) (r : xr (V + W)) :
+  inv ch a -> inv ch b -> x_ev r = x_ev a ++ x_ev b -> x_tr r = x_tr a ++ x_tr b ->
+  x_ni r = (x_ni a + x_ni b)%nat -> inv ch r.
+Proof.
+  intros [Na [Fa Ia]] [Nb [Fb Ib]] He Ht Hn. unfold inv. rewrite He, Ht, Hn. split; [apply nested_app; auto|].
+  split; intros e; rewrite cnt_app, ?app_length, ?Fa, ?Fb, ?Ia, ?Ib; lia.
+Qed.
+
+Section Events.
+  Variable q : quirks.
+  Variable S : schema.
+  Variable w : world.
+  Variable frags : list (name * fragment).
+  Variable vars : list (name * value).
+  Variable vdefs : list vardef.
+  Variable ch : list N.
+
+  Definition I_set (f : set_t) : Prop := forall st rt nid sels p r, f st rt nid sels p = Ok r -> inv ch r.
+  Definition I_occs (f : occs_t) : Prop := forall rt nid occs p r, f rt nid occs p = Ok r -> inv ch r.
+  Definition I_field (f : field_t) : Prop := forall rt nid o p r, f rt nid o p = Ok r -> inv ch r.
+  Definition I_comp (f : comp_t) : Prop := forall c fa t ov sub p r, f c fa t ov sub p = Ok r -> inv ch r.
+  Definition I_items (f : items_t) : Prop := forall fa t l i sub p r, f fa t l i sub p = Ok r -> inv ch r.
+
+  Lemma inv_same {V W} (a : xr V) (b : xr W) :
+    inv ch a -> x_ev b = x_ev a -> x_tr b = x_tr a -> x_ni b = x_ni a -> inv ch b.
+  Proof. intros [Na [Fa Ia]] He Ht Hn. unfold inv. rewrite He, Ht, Hn. auto. Qed.
+
+  Lemma set_step_inv n' f : I_occs f -> I_set (set_step q S frags vars vdefs n' f).
+  Proof.
+    intros Hf st rt nid sels p r H. unfold set_step in H.
+    apply bindo_ok in H. destruct H as [occs0 [_ H]].
+    apply bindo_ok in H. destruct H as [a [Ha H]]. injection H as <-.
+    eapply inv_same; [exact (Hf _ _ _ _ _ Ha)|reflexivity..].
+  Qed.
+
+  Lemma occs_step_inv ff fo : I_field ff -> I_occs fo ->
+    forall rt nid o r p res, occs_step ff fo rt nid o r p = Ok res -> inv ch res.
+  Proof.
+    intros Hf Ho rt nid o r p res H. unfold occs_step in H.
+    apply bindo_ok in H. destruct H as [a [Ha H]].
+    destruct (x_v a).
+    - apply bindo_ok in H. destruct H as [b [Hb H]]. injection H as <-.
+      pose proof (Hf _ _ _ _ _ Ha) as [Na [Fa Ia]]. pose proof (Ho _ _ _ _ _ Hb) as [Nb [Fb Ib]].
+      unfold inv; cbn [x_ev x_tr x_ni]. split; [apply nested_app; auto|].
+      split; intros e; rewrite cnt_app, ?app_length, ?Fa, ?Fb, ?Ia, ?Ib; lia.
+    - injection H as <-. eapply inv_same; [exact (Hf _ _ _ _ _ Ha)|reflexivity..].
+  Qed.
+
+  Lemma hooked_inv_field h (r : xr ires) one :
+    is_field h = true -> nested ch (x_ev r) ->
+    (forall e, cnt e is_field (x_ev r) = (count_occ N.eq_dec ch e * one)%nat) ->
+    (forall e, cnt e is_item (x_ev r) = (count_occ N.eq_dec ch e * x_ni r)%nat) ->
+    length (x_tr r) = Datatypes.S one ->
+    inv ch (hooked ch h r).
+  Proof.
+    intros Hh Nr Fr Ir Hl. rewrite hooked_eq. unfold inv; cbn [x_ev x_tr x_ni].
+    assert (Hres : is_resolve h = true) by (destruct h; try discriminate; reflexivity).
+    assert (Hit : is_item h = false) by (destruct h; try discriminate; reflexivity).
+    split; [apply nested_wrap; auto|].
+    split; intros e; rewrite cnt_wrap, ?Hh, ?Hit, ?Fr, ?Ir, ?Hl; lia.
+  Qed.
+
+  Lemma field_step_inv c : I_comp c -> I_field (field_step q S w ch c).
+  Proof.
+    intros Hc rt nid o p r H. unfold field_step in H.
+    destruct (name_eqb (o_name (xo o)) N_typename); [injection H as <-; apply inv_empty|].
+    destruct (obj_field_ty S rt (o_name (xo o))) as [t|]; [|discriminate].
+    (* the body: exactly one resolver invocation of its own *)
+    assert (Hbody : forall r', field_body q S w c nid o (p ++ [PF (o_key (xo o))]) t = Ok r' ->
+              nested ch (x_ev r') /\
+              (exists one, length (x_tr r') = Datatypes.S one /\
+                 (forall e, cnt e is_field (x_ev r') = (count_occ N.eq_dec ch e * one)%nat)) /\
+              (forall e, cnt e is_item (x_ev r') = (count_occ N.eq_dec ch e * x_ni r')%nat)).
+    { intros r' Hb. unfold field_body in Hb.
+      destruct (resolver_fails S w t (out w nid (o_name (xo o)))).
+      - assert (E : x_ev r' = [] /\ x_tr r' = [(nid, o_name (xo o))] /\ x_ni r' = O).
+        { destruct (q_field_err_parent q || is_nonnull t); injection Hb as <-; auto. }
+        destruct E as [E1 [E2 E3]]. rewrite E1, E2, E3. split; [constructor|].
+        split; [exists O; split; [reflexivity|]|]; intros e; unfold cnt; cbn; lia.
+      - apply bindo_ok in Hb. destruct Hb as [a [Ha Hb]]. injection Hb as <-. cbn [x_ev x_tr x_ni].
+        destruct (Hc _ _ _ _ _ _ _ Ha) as [Na [Fa Ia]]. split; [exact Na|].
+        split; [exists (length (x_tr a)); split; [reflexivity|exact Fa]|exact Ia]. }
+    destruct (ext_branch ch o) eqn:Eb.
+    - destruct (lookup_ret S (xo_st o) (o_name (xo o))) as [rty|]; [|injection H as <-; apply inv_empty].
+      apply bindo_ok in H. destruct H as [a [Ha H]]. injection H as <-.
+      destruct (Hbody a Ha) as [Na [[one [Hl Fa]] Ia]].
+      eapply hooked_inv_field; eauto.
+    - assert (Hch : ch = []).
+      { unfold ext_branch in Eb. apply orb_false_elim in Eb. destruct Eb as [E1 _].
+        destruct ch; [reflexivity|discriminate]. }
+      destruct (Hbody r H) as [Na [[one [Hl Fa]] Ia]]. unfold inv. split; [exact Na|].
+      split; [|exact Ia]. intros e. rewrite Fa, Hch. reflexivity.
+  Qed.
+
+  Lemma xcatch_inv catch (r : xr ires) : inv ch r -> inv ch (xcatch catch r).
+  Proof.
+    intros Hr. unfold xcatch. destruct (x_v r); [exact Hr|]. destruct catch; [|exact Hr].
+    eapply inv_same; [exact Hr|reflexivity..].
+  Qed.
+
+  Lemma comp_step_inv c i s : I_comp c -> I_items i -> I_set s -> I_comp (comp_step q S w c i s).
+  Proof.
+    intros Hc Hi Hs catch fa t ov sub p r H. unfold comp_step in H.
+    assert (Leaf : forall v : ires, Ok (mkxr v [] [] [] false O) = Ok r -> inv ch r).
+    { intros v Hv. injection Hv as <-. apply inv_empty. }
+    destruct t as [tn|t'|t'].
+    - destruct ov as [| |z|b|s1|b|e|k|l]; try (eapply Leaf; exact H).
+      destruct (node_ty w k) as [rt'|]; [|eapply Leaf; exact H].
+      apply bindo_ok in H. destruct H as [a [Ha H]]. injection H as <-.
+      apply xcatch_inv. exact (Hs _ _ _ _ _ _ Ha).
+    - destruct ov as [| |z|b|s1|b|e|k|l]; try (eapply Leaf; exact H).
+      apply bindo_ok in H. destruct H as [a [Ha H]]. injection H as <-.
+      apply xcatch_inv. eapply inv_same; [exact (Hi _ _ _ _ _ _ _ Ha)|reflexivity..].
+    - exact (Hc _ _ _ _ _ _ _ H).
+  Qed.
+
+  Lemma item_hooked_inv fa t p i (a : xr ires) : inv ch a -> inv ch (item_hooked ch fa t p i a).
+  Proof.
+    intros [Na [Fa Ia]]. unfold item_hooked. destruct ch as [|c0 ch'] eqn:Ech; [cbn; unfold inv; auto|].
+    cbn [is_nil]. rewrite hooked_eq. unfold inv; cbn [x_ev x_tr x_ni]. rewrite <- Ech in *.
+    split; [apply nested_wrap; auto|].
+    split; intros e; rewrite cnt_wrap; cbn [is_field is_item]; rewrite ?Fa, ?Ia; lia.
+  Qed.
+
+  Lemma items_step_inv c i : I_comp c -> I_items i ->
+    forall fa t ov r k sub p res, items_step q ch c i fa t ov r k sub p = Ok res -> inv ch res.
+  Proof.
+    intros Hc Hi fa t ov r k sub p res H. unfold items_step in H.
+    apply bindo_ok in H. destruct H as [a [Ha H]]. cbv zeta in H.
+    pose proof (item_hooked_inv fa t p k a (Hc _ _ _ _ _ _ _ Ha)) as Hinv.
+    destruct (x_v (item_hooked ch fa t p k a)).
+    - apply bindo_ok in H. destruct H as [b [Hb H]]. injection H as <-.
+      destruct Hinv as [Na [Fa Ia]]. pose proof (Hi _ _ _ _ _ _ _ Hb) as [Nb [Fb Ib]].
+      unfold inv; cbn [x_ev x_tr x_ni]. split; [apply nested_app; auto|].
+      split; intros e; rewrite cnt_app, ?app_length, ?Fa, ?Fb, ?Ia, ?Ib; lia.
+    - injection H as <-. eapply inv_same; [exact Hinv|reflexivity..].
+  Qed.
+
+  Theorem events_all : forall n,
+      I_set (x_set q S w frags vars vdefs ch n) /\
+      I_occs (x_occs q S w frags vars vdefs ch n) /\
+      I_field (x_field q S w frags vars vdefs ch n) /\
+      I_comp (x_comp q S w frags vars vdefs ch n) /\
+      I_items (x_items q S w frags vars vdefs ch n).
+  Proof.
+    induction n as [|n [IHs [IHo [IHf [IHc IHi]]]]].
+    - split; [|split; [|split; [|split]]].
+      + intros st rt nid sels p r H; discriminate.
+      + intros rt nid occs p r H. destruct occs; [|discriminate]. injection H as <-. apply inv_empty.
+      + intros rt nid o p r H; discriminate.
+      + intros c fa t ov sub p r H; discriminate.
+      + intros fa t l i sub p r H. destruct l; [|discriminate]. injection H as <-. apply inv_empty.
+    - split; [|split; [|split; [|split]]].
+      + change (I_set (set_step q S frags vars vdefs n (x_occs q S w frags vars vdefs ch n))).
+        apply set_step_inv; exact IHo.
+      + intros rt nid occs p r H. destruct occs as [|o occs]; [injection H as <-; apply inv_empty|].
+        change (occs_step (x_field q S w frags vars vdefs ch n) (x_occs q S w frags vars vdefs ch n) rt nid o occs p = Ok r) in H.
+        eapply occs_step_inv; eauto.
+      + change (I_field (field_step q S w ch (x_comp q S w frags vars vdefs ch n))).
+        apply field_step_inv; exact IHc.
+      + change (I_comp (comp_step q S w (x_comp q S w frags vars vdefs ch n) (x_items q S w frags vars vdefs ch n) (x_set q S w frags vars vdefs ch n))).
+        apply comp_step_inv; assumption.
+      + intros fa t l i sub p r H. destruct l as [|ov l]; [injection H as <-; apply inv_empty|].
+        change (items_step q ch (x_comp q S w frags vars vdefs ch n) (x_items q S w frags vars vdefs ch n) fa t ov l i sub p = Ok r) in H.
+        eapply items_step_inv; eauto.
+  Qed.
+End Events.
+
+
+(* --------------------------------------------------- introspection-only --- *)
+Lemma intro_occs_nested S ch rstr occs : nested ch (x_ev (x_intro_occs S ch rstr occs)).
+Proof.
+  induction occs as [|o r IH]; [constructor|]. cbn [x_intro_occs]. cbv zeta.
+  set (a := if name_eqb (o_name (xo o)) N_typename then _ else _).
+  assert (Ha : nested ch (x_ev a)).
+  { subst a. destruct (name_eqb (o_name (xo o)) N_typename); [constructor|].
+    destruct (ext_branch ch o); [|constructor].
+    destruct (lookup_ret S (xo_st o) (o_name (xo o))); [|constructor].
+    rewrite hooked_eq. cbn [x_ev]. apply nested_wrap; [reflexivity|constructor]. }
+  destruct (x_v a); cbn [x_ev]; [apply nested_app; auto|exact Ha].
+Qed.
+
+Lemma intro_occs_transparent S ch rstr occs :
+  x_lf (x_intro_occs S ch rstr occs) = false ->
+  sim (x_intro_occs S ch rstr occs) (x_intro_occs S [] rstr occs).
+Proof.
+  induction occs as [|o r IH]; intros Hlf; [unfold sim; cbn; auto|].
+  cbn [x_intro_occs] in *. cbv zeta in *.
+  set (a := if name_eqb (o_name (xo o)) N_typename then _ else _) in *.
+  set (a0 := if name_eqb (o_name (xo o)) N_typename then _ else _).
+  assert (Ha : x_lf a = false -> sim a a0).
+  { subst a a0. destruct (name_eqb (o_name (xo o)) N_typename); [intros _; unfold sim; cbn; auto|].
+    destruct (ext_branch ch o) eqn:Eb.
+    - destruct (lookup_ret S (xo_st o) (o_name (xo o))); [|cbn; discriminate].
+      intros _. destruct (ext_branch [] o); rewrite ?hooked_eq; unfold sim; cbn; auto.
+    - assert (Hch : ch = []).
+      { unfold ext_branch in Eb. apply orb_false_elim in Eb. destruct Eb as [E1 _].
+        destruct ch; [reflexivity|discriminate]. }
+      subst ch. rewrite Eb. intros _. unfold sim; cbn; auto. }
+  destruct (x_v a) eqn:Ev.
+  - cbn [x_lf] in Hlf. apply orb_false_elim in Hlf. destruct Hlf as [Hla Hlb].
+    destruct (Ha Hla) as [Hv [He [Ht Hl]]]. rewrite Hv, Ev.
+    destruct (IH Hlb) as [Hv' [He' [Ht' Hl']]].
+    unfold sim; cbn [x_v x_es x_tr x_lf]. rewrite Hv', He, He', Ht, Ht', Hl, Hl'. auto.
+  - cbn [x_lf] in Hlf. destruct (Ha Hlf) as [Hv [He [Ht Hl]]]. rewrite Hv, Ev.
+    unfold sim; cbn [x_v x_es x_tr x_lf]. auto.
+Qed.
+
+(* ------------------------------------------------------- request phases --- *)
+Inductive phases (ch : list N) : list ev -> Prop :=
+| ph_parse_fail :
+    phases ch (wrap ch HPrepare true [] ++ wrap ch HParse false [])
+| ph_validation_fail :
+    phases ch (wrap ch HPrepare true [] ++ wrap ch HParse true [] ++ wrap ch HValidation false [])
+| ph_no_operation :
+    phases ch (wrap ch HPrepare true [] ++ wrap ch HParse true [] ++ wrap ch HValidation true [])
+| ph_executed : forall op ok inner, nested ch inner ->
+    phases ch (wrap ch HPrepare true [] ++ wrap ch HParse true [] ++ wrap ch HValidation true [] ++
+               wrap ch (HExecute op) ok inner).
+
+Definition lifecycle (ch : list N) (evs : list ev) : Prop :=
+  exists ok ph, phases ch ph /\ evs = wrap ch HRequest ok ph.
+
+Lemma next_prepare_rec ch :
+  next_prepare (rec_chain ch (fun _ : unit => HPrepare) outcome_ok) tt = (Ok tt, wrap ch HPrepare true []).
+Proof. unfold next_prepare. rewrite run_rec_chain. reflexivity. Qed.
+Lemma next_parse_rec {D} ch (od : option D) :
+  next_parse (rec_chain ch (fun _ : unit => HParse) some_ok) (od, []) tt = (od, wrap ch HParse (some_ok od) []).
+Proof. unfold next_parse. rewrite run_rec_chain. reflexivity. Qed.
+Lemma next_validation_rec ch (v : bool) :
+  next_validation (rec_chain ch (fun _ => HValidation) (fun b : bool => b)) (v, []) = (v, wrap ch HValidation v []).
+Proof. unfold next_validation. rewrite run_rec_chain. reflexivity. Qed.
+Lemma next_request_rec {R} ch (okf : R -> bool) (fut : M R) :
+  next_request (rec_chain ch (fun _ => HRequest) okf) fut = (fst fut, wrap ch HRequest (okf (fst fut)) (snd fut)).
+Proof. unfold next_request. rewrite run_rec_chain. reflexivity. Qed.
+
+Section Request.
+  Variable q : quirks.
+  Variable S : schema.
+  Variable w : world.
+
+  Lemma x_execute_nested d opname vars cf ch n op r :
+    x_execute q S w d opname vars cf ch n = Ok (Some (op, r)) -> nested ch (x_ev r).
+  Proof.
+    unfold x_execute. destruct (select_op d opname) as [o|]; [|discriminate].
+    destruct (root_name S o) as [rt|]; [|discriminate].
+    intros H. apply bindo_ok in H. destruct H as [a [Ha H]]. injection H as _ <-.
+    destruct (c_intro cf).
+    - assert (Hi : forall root rstr, x_intro q S (doc_frags d) vars (op_vars o) ch n root rstr (op_sels o) = Ok a -> nested ch (x_ev a)).
+      { intros root rstr Hx. unfold x_intro in Hx. apply bindo_ok in Hx. destruct Hx as [occs0 [_ Hx]].
+        injection Hx as <-. cbn [x_ev]. apply intro_occs_nested. }
+      destruct (op_ty o); eapply Hi; exact Ha.
+    - destruct (events_all q S w (doc_frags d) vars (op_vars o) ch n) as [Hs _].
+      destruct (Hs _ _ _ _ _ _ Ha) as [Hn _]. exact Hn.
+  Qed.
+
+  Theorem request_lifecycle od opname vars cf n resp evs lf :
+    x_request q S w od opname vars cf n = Ok (resp, evs, lf) -> lifecycle (ids (c_k cf)) evs.
+  Proof.
+    unfold x_request. intros H. apply bindo_ok in H. destruct H as [ex [Hex H]].
+    rewrite next_prepare_rec, next_parse_rec in H.
+    destruct od as [d|].
+    - rewrite next_validation_rec in H. destruct (c_valid cf) eqn:Ev; cbn [negb] in H.
+      + destruct ex as [[op r]|].
+        * rewrite next_execute_rec in H. cbn [fst snd] in H. rewrite next_request_rec in H. cbn [fst snd] in H.
+          injection H as _ <- _. eexists _, _. split; [|reflexivity].
+          apply ph_executed. eapply x_execute_nested; exact Hex.
+        * rewrite next_request_rec in H. cbn [fst snd] in H. injection H as _ <- _.
+          eexists _, _. split; [|reflexivity]. apply ph_no_operation.
+      + rewrite next_request_rec in H. cbn [fst snd] in H. injection H as _ <- _.
+        eexists _, _. split; [|reflexivity]. apply ph_validation_fail.
+    - rewrite next_request_rec in H. cbn [fst snd some_ok] in H. injection H as _ <- _.
+      eexists _, _. split; [|reflexivity]. apply ph_parse_fail.
+  Qed.
+
+  (* transparency of one request *)
+  Lemma sim_to_response (r r0 : xr ires) : sim r r0 -> to_response r0 = to_response r.
+  Proof. intros [Hv [He [Ht _]]]. unfold to_response. rewrite Hv, He, Ht. reflexivity. Qed.
+
+  Lemma x_execute_transparent d opname vars cf ch n op r :
+    x_execute q S w d opname vars cf ch n = Ok (Some (op, r)) -> x_lf r = false ->
+    exists r0, x_execute q S w d opname vars cf [] n = Ok (Some (op, r0)) /\ sim r r0.
+  Proof.
+    unfold x_execute. destruct (select_op d opname) as [o|]; [|discriminate].
+    destruct (root_name S o) as [rt|]; [|discriminate].
+    intros H Hlf. apply bindo_ok in H. destruct H as [a [Ha H]]. injection H as <- <-.
+    destruct (c_intro cf).
+    - assert (Hi : forall root rstr, x_intro q S (doc_frags d) vars (op_vars o) ch n root rstr (op_sels o) = Ok a ->
+                exists a0, x_intro q S (doc_frags d) vars (op_vars o) [] n root rstr (op_sels o) = Ok a0 /\ sim a a0).
+      { intros root rstr Hx. unfold x_intro in *. apply bindo_ok in Hx. destruct Hx as [occs0 [Hc Hx]].
+        rewrite Hc. cbn [bindo]. injection Hx as <-. cbn [x_lf] in Hlf.
+        eexists. split; [reflexivity|].
+        destruct (intro_occs_transparent S ch rstr _ Hlf) as [Hv [He [Ht Hl]]].
+        unfold sim; cbn [x_v x_es x_tr x_lf]. rewrite Hv. auto. }
+      destruct (op_ty o); destruct (Hi _ _ Ha) as [a0 [Ha0 Hs]]; rewrite Ha0; cbn [bindo]; eauto.
+    - destruct (transparent_all q S w (doc_frags d) vars (op_vars o) ch n) as [Hs _].
+      destruct (Hs _ _ _ _ _ _ Ha Hlf) as [a0 [Ha0 Hsim]]. rewrite Ha0. cbn [bindo]. eauto.
+  Qed.
+
+  Lemma x_execute_none d opname vars cf ch n :
+    x_execute q S w d opname vars cf ch n = Ok None -> x_execute q S w d opname vars cf [] n = Ok None.
+  Proof.
+    unfold x_execute. destruct (select_op d opname) as [o|]; [|auto].
+    destruct (root_name S o) as [rt|]; [|discriminate].
+    intros H. apply bindo_ok in H. destruct H as [a [_ H]]. discriminate.
+  Qed.
+
+  Theorem request_transparent od opname vars cf n resp evs :
+    x_request q S w od opname vars cf n = Ok (resp, evs, false) ->
+    exists evs0, x_request q S w od opname vars (with_k cf 0) n = Ok (resp, evs0, false).
+  Proof.
+    unfold x_request. intros H. apply bindo_ok in H. destruct H as [ex [Hex H]].
+    change (c_k (with_k cf 0)) with 0. change (c_valid (with_k cf 0)) with (c_valid cf).
+    change (ids 0) with (@nil N).
+    rewrite next_prepare_rec, next_parse_rec in H |- *.
+    destruct od as [d|].
+    - rewrite next_validation_rec in H |- *. destruct (c_valid cf) eqn:Ev; cbn [negb] in H |- *.
+      + destruct ex as [[op r]|].
+        * rewrite next_execute_rec in H. cbn [fst snd] in H. rewrite next_request_rec in H. cbn [fst snd] in H.
+          injection H as <- _ Hlf.
+          assert (Hex' : x_execute q S w d opname vars (with_k cf 0) [] n = x_execute q S w d opname vars cf [] n) by reflexivity.
+          destruct (x_execute_transparent _ _ _ _ _ _ _ _ Hex Hlf) as [r0 [Hr0 Hs]].
+          rewrite Hex', Hr0. cbn [bindo]. rewrite next_execute_rec. cbn [fst snd]. rewrite next_request_rec. cbn [fst snd].
+          rewrite (sim_to_response _ _ Hs). destruct Hs as [_ [_ [_ Hl]]]. rewrite Hl. eexists. reflexivity.
+        * rewrite next_request_rec in H. cbn [fst snd] in H. injection H as <- _.
+          assert (Hex' : x_execute q S w d opname vars (with_k cf 0) [] n = x_execute q S w d opname vars cf [] n) by reflexivity.
+          rewrite Hex', (x_execute_none _ _ _ _ _ _ Hex). cbn [bindo]. rewrite next_request_rec. cbn [fst snd].
+          eexists. reflexivity.
+      + injection Hex as <-. cbn [bindo]. rewrite next_request_rec in H |- *. cbn [fst snd] in H |- *.
+        injection H as <- _. eexists. reflexivity.
+    - injection Hex as <-. cbn [bindo]. rewrite next_request_rec in H |- *. cbn [fst snd some_ok] in H |- *.
+      injection H as <- _. eexists. reflexivity.
+  Qed.
+End Request.
+
+
+Lemma to_response_trace (r : xr ires) : rs_trace (to_response r) = x_tr r.
+Proof. unfold to_response. destruct (x_v r); reflexivity. Qed.
+
+Theorem request_resolve_count q S w od opname vars cf n resp evs lf :
+  c_intro cf = false ->
+  x_request q S w od opname vars cf n = Ok (Some resp, evs, lf) ->
+  forall e, cnt e is_field evs = (count_occ N.eq_dec (ids (c_k cf)) e * length (rs_trace resp))%nat.
+Proof.
+  intros Hintro H e. unfold x_request in H. apply bindo_ok in H. destruct H as [ex [Hex H]].
+  rewrite next_prepare_rec, next_parse_rec in H.
+  destruct od as [d|].
+  - rewrite next_validation_rec in H. destruct (c_valid cf) eqn:Ev; cbn [negb] in H.
+    + destruct ex as [[op r]|].
+      * rewrite next_execute_rec in H. cbn [fst snd] in H. rewrite next_request_rec in H. cbn [fst snd] in H.
+        injection H as <- <- _. rewrite to_response_trace.
+        rewrite cnt_wrap, !cnt_app, !cnt_wrap. cbn [is_field].
+        assert (Hr : cnt e is_field (x_ev r) = (count_occ N.eq_dec (ids (c_k cf)) e * length (x_tr r))%nat).
+        { unfold x_execute in Hex. destruct (select_op d opname) as [o|]; [|discriminate].
+          destruct (root_name S o) as [rt|]; [|discriminate].
+          apply bindo_ok in Hex. destruct Hex as [a [Ha Hex]]. injection Hex as _ <-.
+          rewrite Hintro in Ha.
+          destruct (events_all q S w (doc_frags d) vars (op_vars o) (ids (c_k cf)) n) as [Hs _].
+          destruct (Hs _ _ _ _ _ _ Ha) as [_ [Hf _]]. apply Hf. }
+        rewrite Hr. unfold cnt at 1 2 3. cbn. lia.
+      * rewrite next_request_rec in H. cbn [fst snd] in H. discriminate.
+    + rewrite next_request_rec in H. cbn [fst snd] in H. discriminate.
+  - rewrite next_request_rec in H. cbn [fst snd some_ok] in H. discriminate.
+Qed.
+
+Lemma ids_In k e : In e (ids k) <-> e < k.
+Proof.
+  unfold ids. rewrite in_map_iff. split.
+  - intros [x [<- Hin]]. apply in_seq in Hin. lia.
+  - intros H. exists (N.to_nat e). split; [apply N2Nat.id|]. apply in_seq. lia.
+Qed.
+
+Lemma ids_NoDup k : NoDup (ids k).
+Proof.
+  unfold ids. apply Injective_map_NoDup; [|apply seq_NoDup].
+  intros x y H. apply Nat2N.inj. exact H.
+Qed.
+
+Lemma ids_count k e : count_occ N.eq_dec (ids k) e = if e <? k then 1%nat else 0%nat.
+Proof.
+  destruct (N.ltb_spec e k) as [Hlt|Hge].
+  - pose proof (proj1 (NoDup_count_occ N.eq_dec (ids k)) (ids_NoDup k) e) as Hle.
+    pose proof (proj1 (count_occ_In N.eq_dec (ids k) e) (proj2 (ids_In k e) Hlt)) as Hgt. lia.
+  - apply count_occ_not_In. rewrite ids_In. lia.
+Qed.
+
+(* ------------------------------------------------------------ witnesses --- *)
+Definition S0 : schema :=
+  {| s_types := [(10, DObject [(6, TNonNull (TNamed 12)); (7, TNonNull (TList (TNonNull (TNamed 12))))] []);
+                 (11, DObject [(6, TNonNull (TNamed 12))] []);
+                 (12, DScalar 0)];
+     s_query := 10; s_mutation := Some 11;
+     s_tname := [(10, [81]); (11, [77]); (12, [73])] |}.
+Definition w0 : world :=
+  {| w_nodes := [(0, {| n_ty := 10; n_fields := [(7, OList [OInt 4; OInt 5])] |}); (1, {| n_ty := 11; n_fields := [] |})];
+     w_defaults := []; w_idname := 6 |}.
+Definition d_mut : document :=
+  {| doc_ops := [{| op_name := None; op_ty := OpMutation; op_vars := []; op_dirs := [];
+                    op_sels := [SField None 6 [] [] []] |}]; doc_frags := [] |}.
+Definition d_query : document :=
+  {| doc_ops := [{| op_name := None; op_ty := OpQuery; op_vars := []; op_dirs := [];
+                    op_sels := [SField None 6 [] [] []; SField (Some 8) 7 [] [] []] |}]; doc_frags := [] |}.
+Definition cf_intro (k : N) : cfg := {| c_k := k; c_valid := true; c_intro := true; c_empty := 99 |}.
+Definition cf_norm (k : N) : cfg := {| c_k := k; c_valid := true; c_intro := false; c_empty := 99 |}.
+
+(* `mutation { id }` as an introspection-only request: with one pass-through
+   extension the response is an error, without it {"id": null} *)
+Theorem transparent_refuted :
+  exists q S w d cf n r1 e1 r0 e0,
+    x_request q S w (Some d) None [] cf n = Ok (r1, e1, true) /\
+    x_request q S w (Some d) None [] (with_k cf 0) n = Ok (r0, e0, false) /\
+    oresp_same r1 r0 = false /\
+    r1 = Some {| rs_data := VNull; rs_errors := [[]]; rs_trace := [] |} /\
+    r0 = Some {| rs_data := VObj [(6, VNull)]; rs_errors := []; rs_trace := [] |}.
+Proof.
+  exists quirks_today, S0, w0, d_mut, (cf_intro 1), 10%nat.
+  eexists _, _, _, _. repeat split; vm_compute; reflexivity.
+Qed.
+
+(* non-vacuity: a query with a list, two extensions, no failing lookup *)
+Example transparent_nonvacuous :
+  match x_request quirks_today S0 w0 (Some d_query) None [] (cf_norm 2) 10 with
+  | Ok (Some r, evs, false) =>
+      value_eqb (rs_data r) (VObj [(6, VInt 0); (8, VList [VInt 4; VInt 5])]) &&
+      Nat.eqb (length evs) 36 && lifecycle_ok 2 evs (Some (length (rs_trace r)))
+  | _ => false
+  end = true.
+Proof. vm_compute. reflexivity. Qed.
+
+(* a field collected under its own runtime object type cannot fail the lookup:
+   the known class needs a static type name different from the runtime type *)
+Lemma lookup_concrete S rt nm t : obj_field_ty S rt nm = Some t -> lookup_ret S rt nm = Some t.
+Proof.
+  unfold obj_field_ty, lookup_ret. destruct (tdef_of S rt) as [d|]; [|discriminate].
+  destruct d; try discriminate. auto.
+Qed.
